@@ -1,0 +1,13 @@
+//go:build verif
+
+package httpserver
+
+// VerifC06SiteAddress runs the address steps InspectServerBlocks applies to a site key
+// (standardizeAddress, then Normalize); the TLS config of the site gets Hostname = Host.
+func VerifC06SiteAddress(key string) (Address, error) {
+	a, err := standardizeAddress(key)
+	if err != nil {
+		return a, err
+	}
+	return a.Normalize(), nil
+}
